@@ -24,13 +24,14 @@ def search(res, tier, rng):
     ok, log, exe = vlib.build_impl("asan")
     if not ok:
         res.oblige("C harness builds (asan)", False, log[-500:]); return
-    nsets = 6 if tier == "quick" else 60
+    nsets = 7 if tier == "quick" else 63
     per = 40 if tier == "quick" else 400
     scns = []; meta = []
     for s in range(nsets):
-        method = [("none",), ("mszip",), ("lzx", 16), ("qtm", 15), ("none",), ("mszip",)][s % 6]
+        method = [("none",), ("mszip",), ("lzx", 16), ("qtm", 15), ("none",), ("mszip",), ("mszip",)][s % 7]
         lens = [rng.choice([1, 2, 3, 5, 100, 700]), rng.choice([0, 4, 33000, 1500, 33000])]
-        if s % 6 in (4, 5): lens = [rng.choice([5, 100, 700]), rng.choice([33000, 66000])]     # several blocks: damage in one block, members reaching the others
+        if s % 7 in (4, 5): lens = [rng.choice([5, 100, 700]), rng.choice([33000, 66000])]     # several blocks: damage in one block, members reaching the others
+        if s % 7 == 6: lens = [40000, 60000]      # four blocks, the first member ends two blocks before the folder does: a damaged block must not simply drop out of the stream
         if method[0] in ("lzx", "qtm"): mem = [cabfmt.Member(b"a.bin", length=lens[0]), cabfmt.Member(b"b.bin", length=lens[1])]
         else: mem = cabfmt.random_members(rng, 2, lens=lens)
         f = cabfmt.Folder(method, mem)
